@@ -371,6 +371,11 @@ func (rd *realDecoder) getStringArray() ([]string, error) {
 		return nil, errInvalidArrayLength
 	}
 
+	if n > rd.remaining() {
+		rd.off = len(rd.raw)
+		return nil, ErrInsufficientData
+	}
+
 	ret := make([]string, n)
 	for i := range ret {
 		str, err := rd.getString()
